@@ -4,6 +4,8 @@ import (
 	"fmt"
 	"strings"
 
+	apierrors "k8s.io/apimachinery/pkg/api/errors"
+
 	"package-operator.run/internal/verifharness/driver"
 	"package-operator.run/internal/verifharness/pkomodel"
 	"package-operator.run/internal/verifharness/scen"
@@ -11,7 +13,10 @@ import (
 )
 
 // C09 - paused means hands-off (ObjectSet / ObjectSetPhase level).
-type C09 struct{ Base }
+type C09 struct {
+	Base
+	ownFailures map[string]int // paused owner -> consecutive passes that failed without any failing API request
+}
 
 func (m *C09) OnRequest(e *scen.Env, req *simkube.Request) {
 	if !req.IsWrite() || req.DryRun || req.Pass == nil || !isSetController(req.Pass.Actor) || isPKOKind(req.GVK.Kind) {
@@ -62,6 +67,30 @@ func (m *C09) OnPassEnd(e *scen.Env, pr driver.PassResult) {
 				e.Count("c09_paused_saw_foreign_owned_object")
 			}
 		}
+	}
+	if pr.Err != nil {
+		// an error that no API response explains: every request of the pass succeeded (NotFound on reads is an answer, not a failure)
+		apiFailure := false
+		for _, r := range p.Requests {
+			if r.Err != nil && !(r.Verb == "get" && apierrors.IsNotFound(r.Err)) {
+				apiFailure = true
+			}
+		}
+		if !apiFailure {
+			// one such pass can be a retry the next pass resolves (e.g. the error kept from a lookup that preceded a successful
+			// create); a paused owner that keeps failing on its own never reports Paused and never probes
+			e.Count("c09_paused_pass_error_without_api_failure")
+			if m.ownFailures == nil {
+				m.ownFailures = map[string]int{}
+			}
+			k := owner.Kind + "/" + owner.NS + "/" + owner.Name
+			m.ownFailures[k]++
+			if m.ownFailures[k] == 3 {
+				e.Report("C09:paused-owner-keeps-failing-on-its-own:"+errClass(pr.Err), fmt.Sprintf("%s %s/%s is paused; three passes in a row failed although every API request succeeded: %v", owner.Kind, owner.NS, owner.Name, pr.Err))
+			}
+		}
+	} else if m.ownFailures != nil {
+		delete(m.ownFailures, owner.Kind+"/"+owner.NS+"/"+owner.Name)
 	}
 	body, req := statusBody(p, owner)
 	if req == nil {
@@ -120,4 +149,20 @@ func phaseClassOf(ctrl string) string {
 		return driver.RemoteClass
 	}
 	return "default"
+}
+
+// errClass: the error message without names (letters and spaces of its first 60 characters).
+func errClass(err error) string {
+	var b strings.Builder
+	for _, c := range err.Error() {
+		if c >= 'a' && c <= 'z' || c >= 'A' && c <= 'Z' {
+			b.WriteRune(c)
+		} else if c == ' ' || c == ':' {
+			b.WriteRune('_')
+		}
+		if b.Len() >= 60 {
+			break
+		}
+	}
+	return b.String()
 }
